@@ -68,7 +68,8 @@ def main():
         rec["checks"] = {}
         for p in props:
             t0 = time.time()
-            rcc, outc = sh([os.path.join(VERIF, "check"), p, "--tier", a.tier], cwd=VERIF, timeout=7200)
+            rcc, outc = sh([os.path.join(VERIF, "check"), p, "--tier", a.tier], cwd=VERIF, timeout=7200,
+                           env=dict(os.environ, VERIF_EVIDENCE_DIR=os.path.join(VERIF, "build", "mutant_evidence")))
             keys = re.findall(r"^VIOLATION property=\S+ replay=\S+ key=(\S+)", outc, re.M)
             rec["checks"][p] = {"exit": rcc, "violations": len(keys), "keys": keys[:8],
                                 "wall_s": round(time.time() - t0, 1),
